@@ -38,6 +38,7 @@ def main(argv=None):
         ctx.stats['wrappers_absorbed_by_the_loader'] = list(prog.absorbed)
         ctx.stats['suppress_blocks_desugared_by_the_loader'] = prog.suppress_desugared
         ctx.stats['closing_blocks_desugared_by_the_loader'] = prog.closing_desugared
+        ctx.stats['acquire_try_finally_release_folded_by_the_loader'] = prog.lock_blocks_folded
         ctx.stats['self_aliases_resolved_by_the_loader'] = prog.aliases_resolved
         ctx.stats['numeric_updates_normalised_by_the_loader'] = prog.updates_normalised
         ctx.stats['constant_first_comparisons_normalised_by_the_loader'] = prog.comparisons_normalised
